@@ -39,7 +39,7 @@ RELATED = {
     "C03": ["contracts.c05"],
     "C04": ["contracts.c12"],
     "C05": ["contracts.c01b"],
-    "C06": ["contracts.c03"],
+    "C06": ["contracts.c03", "contracts.c05"],
     "C08": ["contracts.c13", "contracts.c13b", "contracts.c14"],
     "C10": ["contracts.c08", "contracts.c12", "contracts.c13"],
     "C12": ["contracts.c13", "contracts.c17"],
